@@ -1088,6 +1088,8 @@ func gap7MixedCase(prop string) func(g *Gen, tier string, res *GenOutput) {
 				ops = []Op{{K: "tocsv", F: 0}, {K: "csvroundtrip", F: 0}, {K: "csvroundtrip", F: 0, ViaFile: true}}
 			case "C17":
 				ops = []Op{{K: "apply", F: 0, Fn: 0, Axis: &one}, {K: "apply", F: 0, Fn: 1, Axis: &one}, {K: "apply", F: 0, Fn: 14, Axis: &one}, {K: "apply", F: 0, Fn: 0, Axis: &zero}}
+			case "C19":
+				ops = []Op{{K: "shift", F: 0, N: 1}, {K: "shift", F: 0, N: 0}, {K: "shift", F: 0, N: -1}, {K: "shift", F: 0, N: 5}}
 			default:
 				ops = []Op{{K: "columnnames", F: 0}, {K: "row", F: 0, N: 1}, {K: "iloc", F: 0, Ints: []int64{0, 2}, Ints2: []int64{0, 1}}, {K: "string", F: 0}, {K: "multiselect", F: 0, Strs: []BStr{BStr(names[len(names)-1]), BStr(names[0])}}}
 			}
@@ -1167,6 +1169,12 @@ func gap8EmptyName(prop string) func(g *Gen, tier string, res *GenOutput) {
 		case "C07":
 			ops = []Op{{K: "dedup", F: 0, HasOpt: true, Strs: []BStr{"city"}, S1: "first"}, {K: "dedup", F: 0, HasOpt: true, Strs: []BStr{"city", "temp"}, S1: "last"},
 				{K: "dedup", F: 0}, {K: "dedup", F: 0, HasOpt: true, Strs: []BStr{""}, S1: "none"}, {K: "dedupinplace", F: 0, Strs: []BStr{"city"}, S1: "first"}}
+		case "C17":
+			one, zero := []int64{1}, []int64{0}
+			ops = []Op{{K: "apply", F: 0, Fn: 0, Axis: &one}, {K: "apply", F: 0, Fn: 1, Axis: &zero}, {K: "apply", F: 0, Fn: 3, Axis: &one}, {K: "apply", F: 0, Fn: 0},
+				{K: "rename", F: 0, S1: "city", S2: " "}, {K: "apply", F: 0, Fn: 0, Axis: &one}, {K: "apply", F: 0, Fn: 1, Axis: &zero}}
+		case "C19":
+			ops = []Op{{K: "shift", F: 0, N: 1}, {K: "shift", F: 0, N: 0}, {K: "shift", F: 0, N: -2}, {K: "rename", F: 0, S1: "city", S2: " "}, {K: "shift", F: 0, N: 1}, {K: "shift", F: 0, N: 9}}
 		case "C08":
 			ops = []Op{{K: "columnnames", F: 0}, {K: "row", F: 0, N: 1}, {K: "select", F: 0, S1: ""}, {K: "multiselect", F: 0, Strs: []BStr{"", "city"}}, {K: "head", F: 0, N: 2},
 				{K: "iloc", F: 0, Ints: []int64{1}, Ints2: []int64{0, 1}}, {K: "dropcolumn", F: 0, S1: ""}}
